@@ -174,13 +174,18 @@ func (it *Interp) globalAddr(g *ssa.Global) *Value {
 		}
 	}
 	cell := zero(deref(g.Type()))
+	// os.ErrNotExist & co alias the io/fs sentinels (package os itself is not initialised)
+	switch g.String() {
+	case "os.ErrNotExist", "os.ErrExist", "os.ErrPermission", "os.ErrClosed", "os.ErrInvalid":
+		cell = it.fsSentinel(g.Name())
+	}
 	a := &cell
 	it.globals[g] = a
 	return a
 }
 
 // globals of non-interpreted packages that are only ever passed to intercepted functions
-var opaqueGlobalOK = map[string]bool{"hash/crc32.IEEETable": true}
+var opaqueGlobalOK = map[string]bool{"hash/crc32.IEEETable": true, "os.ErrNotExist": true, "os.ErrExist": true, "os.ErrPermission": true, "os.ErrClosed": true, "os.ErrInvalid": true}
 
 func constValue(c *ssa.Const) Value {
 	if c.Value == nil {
